@@ -44,34 +44,6 @@ def buildIn : Sexp → Option (List Arg × List Call)
     some (cas', calls')
   | _ => none
 
-/-- `New<Object>()` leaves a union-struct member without any branch; such a member marshals as
-    `null`, which the decoder of a scalars union reads as its first branch.  Undo that: members
-    whose JSON is null/absent and whose type is a (non-nullable) reference to a union struct hold
-    the empty union. -/
-def fixDefault : Nat → Schemas → Ty → Json → GoVal → GoVal
-  | 0, _, _, _, v => v
-  | fuel + 1, ss, t, j, v =>
-    match t with
-    | .ref p n m =>
-      match Schemas.locateObject ss p n with
-      | some { ty := .struct fields _ gi _, .. } =>
-        match gi, j with
-        | some _, .null => if m.nullable then v else .union (fields.map fun f => (f.name, .nil))
-        | some _, _ => v
-        | none, .obj members =>
-          let fixFields (fs : List (String × Bool × GoVal)) : List (String × Bool × GoVal) :=
-            fs.map fun (k, om, x) =>
-              match fields.find? (fun f => f.name == k) with
-              | some f => (k, om, fixDefault fuel ss f.ty ((Json.lookup k members).getD .null) x)
-              | none => (k, om, x)
-          match v with
-          | .struct fs => .struct (fixFields fs)
-          | .ptr (.struct fs) => .ptr (.struct (fixFields fs))
-          | _ => v
-        | _, _ => v
-      | _ => v
-    | _ => v
-
 def defaultsIn (ss : Schemas) : Sexp → Option (List ((String × String) × GoVal))
   | .list (.atom "defaults" :: xs) => xs.mapM fun (x : Sexp) => match x with
     | .list [.str p, .str n, j] =>
